@@ -13,7 +13,7 @@ Proof. destruct n; reflexivity. Qed.
 Definition setp (p : Z * Z) : Prop := unset p = false.
 
 Section Fill.
-  Variable key : Z -> Z -> Z.
+  Variable key : Z -> Z -> Z -> Z -> Z.
   Variable tie_up : Z -> bool.
   Variables xc yc : list (option Z).
   Variable values : list xv.
@@ -407,7 +407,7 @@ Proof.
 Qed.
 
 Section FillFinal.
-  Variable key : Z -> Z -> Z.
+  Variable key : Z -> Z -> Z -> Z -> Z.
   Variable tie_up : Z -> bool.
   Variables xc yc : list (option Z).
   Variable values : list xv.
